@@ -51,13 +51,11 @@ Lemma skel_cn_unfold n :
               | NBreak => [KBreak] | NWrite id => [KWrite id] | NSleep id => [KSleep id] | NExprS id => [KExprS id]
               | _ => [] end.
 Proof.
-  destruct n; try reflexivity.
-  - cbn. f_equal. f_equal.
-    + induction branches as [|[c b] r IH]; [reflexivity|]. cbn. f_equal; [|exact IH].
-      f_equal. induction b as [|x b IHb]; [reflexivity|]. cbn. f_equal. exact IHb.
-    + induction els as [|x b IHb]; [reflexivity|]. cbn. f_equal. exact IHb.
-  - cbn. f_equal. f_equal. induction body as [|x b IHb]; [reflexivity|]. cbn. f_equal. exact IHb.
-  - cbn. f_equal. f_equal. induction body as [|x b IHb]; [reflexivity|]. cbn. f_equal. exact IHb.
+  assert (G : forall l, (fix go (l : list cnode) : list skel := match l with [] => [] | x :: r => skel_cn x ++ go r end) l = skel_c l).
+  { intro l. reflexivity. }
+  destruct n; try reflexivity; cbn; rewrite ?G; try reflexivity.
+  all: f_equal; f_equal.
+  all: induction branches as [|[c b] r IH]; [reflexivity|]; cbn; rewrite G; f_equal; exact IH.
 Qed.
 
 Lemma skel_pn_unfold p :
@@ -69,14 +67,11 @@ Lemma skel_pn_unfold p :
               | PExprS e => if closed_const e then [] else [KExprS (a_id e)]
               | _ => [] end.
 Proof.
-  destruct p; try reflexivity.
-  - cbn. f_equal. f_equal.
-    + f_equal. f_equal. induction body as [|x b IHb]; [reflexivity|]. cbn. f_equal. exact IHb.
-      induction elifs as [|[c' b] r IH]; [reflexivity|]. cbn. f_equal; [|exact IH].
-      f_equal. induction b as [|x b IHb]; [reflexivity|]. cbn. f_equal. exact IHb.
-    + induction els as [|x b IHb]; [reflexivity|]. cbn. f_equal. exact IHb.
-  - cbn. f_equal. f_equal. induction body as [|x b IHb]; [reflexivity|]. cbn. f_equal. exact IHb.
-  - cbn. f_equal. f_equal. induction body as [|x b IHb]; [reflexivity|]. cbn. f_equal. exact IHb.
+  assert (G : forall l, (fix go (l : list pstmt) : list skel := match l with [] => [] | x :: r => skel_pn x ++ go r end) l = skel_p l).
+  { intro l. reflexivity. }
+  destruct p; try reflexivity; cbn; rewrite ?G; try reflexivity.
+  all: f_equal; f_equal; f_equal.
+  all: induction elifs as [|[c' b] r IH]; [reflexivity|]; cbn; rewrite G; f_equal; exact IH.
 Qed.
 
 Lemma skel_c_app a b : skel_c (a ++ b) = skel_c a ++ skel_c b.
@@ -114,10 +109,9 @@ Lemma rewrite_if_unfold pn n :
                     | NIf bs els => NIf (map (fun cb => (fst cb, map (rewrite_if pn) (snd cb))) bs) (map (rewrite_if pn) els)
                     | _ => n end.
 Proof.
-  destruct n; try reflexivity. cbn. f_equal.
-  - induction branches as [|[c b] r IH]; [reflexivity|]. cbn. f_equal; [|exact IH].
-    f_equal. induction b as [|x b IHb]; [reflexivity|]. cbn. f_equal. exact IHb.
-  - induction els as [|x b IHb]; [reflexivity|]. cbn. f_equal. exact IHb.
+  destruct n; try reflexivity; cbn; f_equal.
+  all: try reflexivity.
+  all: induction branches as [|[c b] r IH]; [reflexivity|]; cbn; f_equal; exact IH.
 Qed.
 
 Lemma rewrite_deep_unfold pn n :
@@ -129,11 +123,8 @@ Lemma rewrite_deep_unfold pn n :
                       | _ => n end.
 Proof.
   destruct n; try reflexivity; cbn; f_equal.
-  - induction branches as [|[c b] r IH]; [reflexivity|]. cbn. f_equal; [|exact IH].
-    f_equal. induction b as [|x b IHb]; [reflexivity|]. cbn. f_equal. exact IHb.
-  - induction els as [|x b IHb]; [reflexivity|]. cbn. f_equal. exact IHb.
-  - induction body as [|x b IHb]; [reflexivity|]. cbn. f_equal. exact IHb.
-  - induction body as [|x b IHb]; [reflexivity|]. cbn. f_equal. exact IHb.
+  all: try reflexivity.
+  all: induction branches as [|[c b] r IH]; [reflexivity|]; cbn; f_equal; exact IH.
 Qed.
 
 Lemma skel_c_map_ext (f : cnode -> cnode) l :
@@ -211,32 +202,35 @@ Proof.
 Qed.
 
 (* ---- main lemma ---- *)
+Ltac head_opt H a0 a1 E :=
+  match type of H with
+  | (match ?R with Some _ => _ | None => None end) = _ => destruct R as [[a0 a1]|] eqn:E; [|discriminate]
+  end.
+
 Lemma tr_block_skeleton ml : forall fuel glob ld s ps ns s',
   tr_block ml fuel glob ld s ps = Some (ns, s') -> skel_c ns = skel_p ps.
 Proof.
   induction fuel as [|f IH]; intros glob ld s ps ns s' H; [discriminate|].
   destruct ps as [|p rest]; [inversion H; reflexivity|].
-  cbn [tr_block] in H.
-  (* every case ends with the same continuation *)
-  assert (K : forall r, match r with
-                        | None => None
-                        | Some (ns0, s1) => match tr_block ml f glob ld s1 rest with
-                                            | None => None | Some (ms, s2) => Some (ns0 ++ ms, s2) end
-                        end = Some (ns, s') ->
-                        (forall ns0 s1, r = Some (ns0, s1) -> skel_c ns0 = skel_pn p) ->
-                        skel_c ns = skel_p (p :: rest)).
-  { intros r Hr Hs. destruct r as [[ns0 s1]|]; [|discriminate].
+  assert (K : forall ns0 s1,
+             match tr_block ml f glob ld s1 rest with
+             | None => None | Some (ms, s2) => Some (ns0 ++ ms, s2) end = Some (ns, s') ->
+             skel_c ns0 = skel_pn p -> skel_c ns = skel_p (p :: rest)).
+  { intros ns0 s1 Hr Hs.
     destruct (tr_block ml f glob ld s1 rest) as [[ms s2]|] eqn:E; [|discriminate].
-    inversion Hr; subst. rewrite skel_c_app. cbn. rewrite (Hs _ _ eq_refl). f_equal. eapply IH; eauto. }
-  destruct p.
-  - eapply K; [exact H|]. intros ns0 s1 [= <-]. rewrite skel_pn_unfold.
-    pose proof (skel_tr_assign glob x e s). destruct (tr_assign glob x e s). exact H0.
-  - eapply K; [exact H|]. intros ns0 s1 [= <- _]. reflexivity.
-  - eapply K; [exact H|]. intros ns0 s1 E. rewrite skel_pn_unfold. apply (skel_tr_tuple _ _ _ _ _ E).
+    inversion Hr; subst. rewrite skel_c_app. cbn. rewrite Hs. f_equal. eapply IH; eauto. }
+  destruct p; cbn [tr_block] in H.
+  - (* PAssign *)
+    pose proof (skel_tr_assign glob x e s) as Hs.
+    destruct (tr_assign glob x e s) as [a0 a1]. eapply K; [exact H|exact Hs].
+  - eapply K; [exact H|reflexivity].
+  - (* PTuple *)
+    head_opt H a0 a1 E. eapply K; [exact H|]. rewrite skel_pn_unfold. apply (skel_tr_tuple _ _ _ _ _ E).
   - (* PIf *)
-    eapply K; [exact H|]. clear H K. intros ns0 s1 E. rewrite skel_pn_unfold.
+    head_opt H a0 a1 E. eapply K; [exact H|]. clear H K. rewrite skel_pn_unfold.
+    destruct (tr_block ml f false ld (child_of s (globals s)) body) as [[ns1 cs1]|] eqn:E1; [|discriminate].
     match type of E with
-    | match ?B _ _ with _ => _ end = _ => set (BR := B) in *
+    | context [?B (globals cs1) elifs] => set (BR := B) in *
     end.
     assert (HB : forall l gl brs gl', BR gl l = Some (brs, gl') ->
                  map (fun x => (fst (fst x), skel_c (snd (fst x)))) brs = skel_pb l).
@@ -246,48 +240,49 @@ Proof.
         destruct (BR (globals cs) r) as [[rest' gl'']|] eqn:Er; [|discriminate].
         inversion Hb; subst. cbn. f_equal; [|eapply IHl; eauto].
         f_equal. eapply IH; eauto. }
-    destruct (BR (globals s) ((c, body) :: elifs)) as [[brs gl1]|] eqn:Eb; [|discriminate].
+    destruct (BR (globals cs1) elifs) as [[brs0 gl1]|] eqn:Eb; [|discriminate].
     apply HB in Eb.
+    pose (brs := (a_id c, ns1, cs1) :: brs0).
+    assert (Eb' : map (fun x => (fst (fst x), skel_c (snd (fst x)))) brs = (a_id c, skel_p body) :: skel_pb elifs).
+    { cbn. rewrite Eb. f_equal. f_equal. eapply IH; eauto. }
+    clear Eb. rename Eb' into Eb.
+    assert (RW : forall pn (brs : list (Z * list cnode * tst)),
+               skel_cb (map (fun x => (fst (fst x), map (rewrite_if pn) (snd (fst x)))) brs)
+               = map (fun x => (fst (fst x), skel_c (snd (fst x)))) brs).
+    { intros pn l. induction l as [|[[c0 n0] t0] r IHr]; cbn; [reflexivity|].
+      rewrite skel_map_rewrite_if. f_equal. exact IHr. }
     destruct els as [|e0 els'].
     + match type of E with (let '(decls, s3) := promo_decls ?G ?N ?S in _) = _ =>
         pose proof (skel_promo G N S) as Hp; destruct (promo_decls G N S) as [decls s3] end.
-      inversion E; subst. cbn in Hp. rewrite skel_c_app, Hp. cbn. rewrite skel_cn_unfold.
-      f_equal. f_equal.
-      * rewrite map_map. cbn. rewrite <- Eb.
-        clear. induction brs as [|[[c0 n0] t0] r IHr]; cbn; [reflexivity|].
-        rewrite skel_map_rewrite_if. f_equal. exact IHr.
+      inversion E; subst. cbn in Hp. rewrite skel_c_app, Hp. cbn [app skel_c]. rewrite skel_cn_unfold, app_nil_r.
+      cbn [skel_cb]. rewrite skel_map_rewrite_if, RW. unfold brs in Eb; cbn [map fst snd] in Eb. rewrite Eb. reflexivity.
     + destruct (tr_block ml f false ld (child_of s gl1) (e0 :: els')) as [[nse cse]|] eqn:Ee; [|discriminate].
       match type of E with (let '(decls, s3) := promo_decls ?G ?N ?S in _) = _ =>
         pose proof (skel_promo G N S) as Hp; destruct (promo_decls G N S) as [decls s3] end.
-      inversion E; subst. cbn in Hp. rewrite skel_c_app, Hp. cbn. rewrite skel_cn_unfold.
-      f_equal. f_equal.
-      * rewrite map_map. cbn. rewrite <- Eb.
-        clear. induction brs as [|[[c0 n0] t0] r IHr]; cbn; [reflexivity|].
-        rewrite skel_map_rewrite_if. f_equal. exact IHr.
-      * rewrite skel_map_rewrite_if. eapply IH; eauto.
+      inversion E; subst. cbn in Hp. rewrite skel_c_app, Hp. cbn [app skel_c]. rewrite skel_cn_unfold, app_nil_r.
+      cbn [skel_cb]. rewrite !skel_map_rewrite_if, RW. unfold brs in Eb; cbn [map fst snd] in Eb. rewrite Eb. rewrite (IH _ _ _ _ _ _ Ee). reflexivity.
   - (* PWhile *)
-    eapply K; [exact H|]. clear H K. intros ns0 s1 E. rewrite skel_pn_unfold.
+    head_opt H a0 a1 E. eapply K; [exact H|]. clear H K. rewrite skel_pn_unfold.
     destruct (tr_block ml f false (S ld) (child_of s (globals s)) body) as [[nsb cs]|] eqn:Eb; [|discriminate].
     match type of E with (let '(decls, s3) := promo_decls ?G ?N ?S in _) = _ =>
       pose proof (skel_promo G N S) as Hp; destruct (promo_decls G N S) as [decls s3] end.
-    inversion E; subst. cbn in Hp. rewrite skel_c_app, Hp. cbn. rewrite skel_cn_unfold.
-    rewrite skel_map_rewrite_deep. f_equal. f_equal. eapply IH; eauto.
+    inversion E; subst. cbn in Hp. rewrite skel_c_app, Hp. cbn [app skel_c]. rewrite skel_cn_unfold, app_nil_r.
+    rewrite skel_map_rewrite_deep. rewrite (IH _ _ _ _ _ _ Eb). reflexivity.
   - (* PFor *)
-    eapply K; [exact H|]. clear H K. intros ns0 s1 E. rewrite skel_pn_unfold.
+    head_opt H a0 a1 E. eapply K; [exact H|]. clear H K. rewrite skel_pn_unfold.
     match type of E with match tr_block ml f false (S ld) ?B body with _ => _ end = _ =>
       destruct (tr_block ml f false (S ld) B body) as [[nsb cs]|] eqn:Eb; [|discriminate] end.
     match type of E with (let '(decls, s3) := promo_decls ?G ?N ?S in _) = _ =>
       pose proof (skel_promo G N S) as Hp; destruct (promo_decls G N S) as [decls s3] end.
-    inversion E; subst. cbn in Hp. rewrite skel_c_app, Hp. cbn. rewrite skel_cn_unfold.
-    rewrite skel_map_rewrite_deep. f_equal. f_equal. eapply IH; eauto.
+    inversion E; subst. cbn in Hp. rewrite skel_c_app, Hp. cbn [app skel_c]. rewrite skel_cn_unfold, app_nil_r.
+    rewrite skel_map_rewrite_deep. rewrite (IH _ _ _ _ _ _ Eb). reflexivity.
   - (* PBreak *)
-    eapply K; [exact H|]. intros ns0 s1 E. destruct ld as [|[|ld']]; [discriminate| |].
-    + destruct ml; [discriminate|]. inversion E; reflexivity.
-    + inversion E; reflexivity.
-  - eapply K; [exact H|]. intros ns0 s1 [= <- _]. reflexivity.
-  - eapply K; [exact H|]. intros ns0 s1 [= <- _]. reflexivity.
-  - eapply K; [exact H|]. intros ns0 s1 E. rewrite skel_pn_unfold.
-    destruct (closed_const e); inversion E; reflexivity.
+    destruct ld as [|[|ld']]; [discriminate| |].
+    + destruct ml; [discriminate|]. eapply K; [exact H|reflexivity].
+    + eapply K; [exact H|reflexivity].
+  - eapply K; [exact H|reflexivity].
+  - eapply K; [exact H|reflexivity].
+  - rewrite skel_pn_unfold in K. destruct (closed_const e); eapply K; [exact H|reflexivity|exact H|reflexivity].
 Qed.
 
 Theorem transl_skeleton : forall p c, transl p = Some c ->
@@ -308,14 +303,16 @@ Lemma tr_block_app_none ml : forall fuel glob ld s a b,
 Proof.
   induction fuel as [|f IH]; intros glob ld s a b Hb; [reflexivity|].
   destruct a as [|p a]; [apply Hb|].
-  cbn [app tr_block].
-  assert (K : forall r, match r with
-                        | None => None
-                        | Some (ns0, s1) => match tr_block ml f glob ld s1 (a ++ b) with
-                                            | None => None | Some (ms, s2) => Some (ns0 ++ ms, s2) end
-                        end = @None (list cnode * tst)).
-  { intros [[ns0 s1]|]; [|reflexivity]. rewrite IH; [reflexivity|exact Hb]. }
-  destruct p; apply K.
+  assert (K : forall ns0 s1,
+             match tr_block ml f glob ld s1 (a ++ b) with
+             | None => None | Some (ms, s2) => Some (ns0 ++ ms, s2) end = @None (list cnode * tst)).
+  { intros ns0 s1. rewrite IH; [reflexivity|exact Hb]. }
+  destruct p; cbn [tr_block app];
+    repeat match goal with
+    | |- (let (_, _) := ?R in _) = None => destruct R
+    | |- context [tr_block ml f glob ld ?S (a ++ b)] => rewrite (IH glob ld S a b Hb)
+    | |- match ?R with Some _ => _ | None => None end = None => destruct R as [[? ?]|]; [|reflexivity]
+    end; reflexivity.
 Qed.
 
 Theorem break_guard : forall pre body rest,
